@@ -58,7 +58,7 @@ def main():
                      "kind_free_text": "repository-specific static analyser (go/packages + go/types + go/cfg + go/ssa): per-property rule packages over shared engines (path queries, locksets, typed AST patterns, wire-grammar extraction, constant tables, arithmetic fingerprints, taint)"}],
         "checks": checks,
         "not_applicable": na,
-        "notes": "All claims are level 'other': structural necessary conditions of each property decided from the source on every run (DESIGN.md). No property is declared wholly not applicable; each check's level text lists the clauses it does not decide. Exit 2 + UNDECIDED means the machinery lost an anchor or met a construct outside its enumerated idioms and refuses to pass vacuously. thorough = quick rules with _test.go files loaded + a sensitivity pass over curated variants of today's source (never affects the verdict).",
+        "notes": "All claims are level 'other': structural necessary conditions of each property decided from the source on every run (DESIGN.md). No property is declared wholly not applicable; each check's level text lists the clauses it does not decide. Exit 2 + UNDECIDED means the machinery lost an anchor or met a construct outside its enumerated idioms and refuses to pass vacuously. thorough = quick rules + a sensitivity pass over curated variants of today's source (never affects the verdict).",
     }
     json.dump(m, open("/verif/MANIFEST.json", "w"), indent=1)
     print("claimed", len(checks), "not_applicable", len(na))
